@@ -126,7 +126,7 @@ PROPS["C11"] = {
     "required_theorems": ["child_is_current_at_commit", "nextVersion_covers", "groupEffect_commit", "time_travel",
                           "nextVersion_upper", "child_choice_ts", "nextVersion_covers_ts", "time_travel_ts", "deleted_parent_untouched", "no_history_error", "no_visible_child_error", "child_deleted_between_error"],
     "technique": "Lean 4 theorems about a hand-written executable model of the annotation core (FindVisible, nextVersionIndex, Compute) in the commit-time and the timestamp regime; tied by a differential line protocol and a ground-truth time-travel oracle on simulated edit timelines in both regimes",
-    "level_text": "Machine-checked proof in the commit-time regime (every version of parent and child carries a commit time >= CommitInfoStart and a time stamp >= CommitInfoStart, versions listed in commit order with VersionIndex = position), for every such history, threshold, changeset id and repeated child slots - the time-travel statements for a child that is visible at the parent's commit and has no deleted version inside the update range (with a deleted version there the documented error is raised, child_deleted_between_error, or with IgnoreInconsistency the version is skipped and nothing is claimed for times inside the deletion): the child reference gets the version current at the parent's commit (FindVisible = last version committed at or before, if visible); the update range reaches every version committed before the next parent version (nextVersion_covers) and ends at or before the versions committed up to the next parent version's commit (nextVersion_upper); and for every t in [commit p_i, commit p_{i+1}) the updates addressed to a slot and stamped <= t are exactly the child versions committed in (commit p_i, t], oldest first, stamped with their commit time - so applying them leaves the version current at t (time travel). Deleted parents get nothing; missing history, no visible child (without IgnoreInconsistency) and a deleted child version at the end of an update range are the documented errors (statements about one child and one parent version - their propagation through Compute is the Except monad of the model, tied by the stream; the typed errors of the public API are compared by class in the stream). In the timestamp regime (no commit times; every threshold >= 0): the child reference is a visible version stamped no later than the parent's time stamp plus the threshold, and not after the parent's time stamp unless it belongs to the parent's changeset (child_choice_ts); when it is stamped before the window it is the last such version; the update range reaches every version stamped before the next parent version less the threshold; and for every t in [ts p_i + threshold, ts p_{i+1} - threshold) the updates addressed to a slot and stamped <= t are exactly the versions after the reference stamped <= t, oldest first, each with its own time stamp, the reference itself being stamped <= t - so applying them leaves the last version stamped at or before t (time_travel_ts). PARTIAL: WHICH version the reference carries inside [ts p_i, ts p_i + threshold) is the closest-match heuristic of FindVisible, for which the property gives no ground truth: there the model is tied to the code by the differential stream only; histories mixing both regimes likewise; composition over all children of a parent rests on C12's permutation/sortedness theorems.",
+    "level_text": "Machine-checked proof in the commit-time regime (every version of parent and child carries a commit time >= CommitInfoStart, versions listed in commit order with VersionIndex = position), for every such history, threshold, changeset id and repeated child slots - the time-travel statements for a child that is visible at the parent's commit and has no deleted version inside the update range (with a deleted version there the documented error is raised, child_deleted_between_error, or with IgnoreInconsistency the version is skipped and nothing is claimed for times inside the deletion): the child reference gets the version current at the parent's commit (FindVisible = last version committed at or before, if visible); the update range reaches every version committed before the next parent version (nextVersion_covers) and ends at or before the versions committed up to the next parent version's commit (nextVersion_upper); and for every t in [commit p_i, commit p_{i+1}) the updates addressed to a slot and stamped <= t are exactly the child versions committed in (commit p_i, t], oldest first, stamped with their commit time - so applying them leaves the version current at t (time travel). Deleted parents get nothing; missing history, no visible child (without IgnoreInconsistency) and a deleted child version at the end of an update range are the documented errors (statements about one child and one parent version - their propagation through Compute is the Except monad of the model, tied by the stream; the typed errors of the public API are compared by class in the stream). In the timestamp regime (no commit times; every threshold >= 0): the child reference is a visible version stamped no later than the parent's time stamp plus the threshold, and not after the parent's time stamp unless it belongs to the parent's changeset (child_choice_ts); when it is stamped before the window it is the last such version; the update range reaches every version stamped before the next parent version less the threshold; and for every t in [ts p_i + threshold, ts p_{i+1} - threshold) the updates addressed to a slot and stamped <= t are exactly the versions after the reference stamped <= t, oldest first, each with its own time stamp, the reference itself being stamped <= t - so applying them leaves the last version stamped at or before t (time_travel_ts). PARTIAL: WHICH version the reference carries inside [ts p_i, ts p_i + threshold) is the closest-match heuristic of FindVisible, for which the property gives no ground truth: there the model is tied to the code by the differential stream only; histories mixing both regimes likewise; composition over all children of a parent rests on C12's permutation/sortedness theorems.",
     "level_note": "Trusted: Lean kernel; correspondence harness (model vs annotate.Ways/Relations on simulated timelines in both regimes, plus an independent ground-truth time-travel oracle at every event time); time.Time comparisons modelled on unix seconds; histories are version-sorted with VersionIndex = position (datasource.go, modelled by toChildList).",
     "design_ref": "DESIGN.md §5 C11/C12",
     "trusted_base": ["model Model/Annotate.lean is hand-written; tie = differential stream through annotate.Ways / annotate.Relations"],
